@@ -151,7 +151,13 @@ fn gen_config(rng: &mut Rng) -> (String, String) {
 type Rows = BTreeMap<String, String>;
 
 fn run_check(bin: &str, dir: &Path, extra: &[String]) -> Result<(i32, Rows), String> {
-    let o = Command::new(bin).args(["check", "--format", "json", "--no-sloc-cache"]).args(extra).current_dir(dir).env("NO_COLOR", "1").output().map_err(|e| e.to_string())?;
+    run_check_in(bin, dir, dir, extra)
+}
+
+/// `cwd` is the directory as the shell spells it (exported as `$PWD`), `dir` the same directory
+/// as the kernel names it
+fn run_check_in(bin: &str, dir: &Path, cwd: &Path, extra: &[String]) -> Result<(i32, Rows), String> {
+    let o = Command::new(bin).args(["check", "--format", "json", "--no-sloc-cache"]).args(extra).current_dir(cwd).env("PWD", cwd).env("NO_COLOR", "1").output().map_err(|e| e.to_string())?;
     let rc = o.status.code().unwrap_or(-1);
     let err = String::from_utf8_lossy(&o.stderr);
     if err.contains("panicked") {
@@ -162,9 +168,12 @@ fn run_check(bin: &str, dir: &Path, extra: &[String]) -> Result<(i32, Rows), Str
     }
     let v: serde_json::Value = serde_json::from_slice(&o.stdout).map_err(|e| format!("JSON: {e}"))?;
     let abs = dir.canonicalize().unwrap().to_string_lossy().into_owned();
+    let logical_abs = cwd.to_string_lossy().into_owned();
     let mut rows = Rows::new();
     for e in v["results"].as_array().cloned().unwrap_or_default() {
         let raw = e["path"].as_str().unwrap_or("").to_string();
+        // (an absolute path in the report is a path the tool did not reduce: it keeps its own key)
+        let _ = &logical_abs;
         let mut p = raw.strip_prefix(&abs).unwrap_or(&raw).trim_start_matches('/').to_string();
         while let Some(r) = p.strip_prefix("./") {
             p = r.to_string();
@@ -418,13 +427,21 @@ fn normalise_cases(sink: &mut Sink, rng: &mut Rng, n: usize, scratch: &str) {
     let cwd = cwd.canonicalize().unwrap();
     std::env::set_current_dir(&cwd).unwrap();
     let cwd_s = cwd.to_string_lossy().into_owned();
+    // the shell's spelling of the same directory: reached through a symbolic link, exported as $PWD
+    let logical = cwd.parent().unwrap().join("link to proj");
+    let _ = std::fs::remove_file(&logical);
+    let _ = std::os::unix::fs::symlink("proj", &logical);
+    let logical_s = logical.to_string_lossy().into_owned();
+    // SAFETY-free: the harness is single-threaded here
+    unsafe { std::env::set_var("PWD", &logical_s) };
     let comps = ["src", "a.rs", ".", "..", "lib", "x y", ".hidden", "deep", ""];
     for _ in 0..n {
         let k = rng.below(5);
         let rel: Vec<&str> = (0..k).map(|_| *rng.pick(&comps)).collect();
         let rel = rel.join("/");
-        let style = rng.below(7);
+        let style = rng.below(8);
         let spelled = match style {
+            7 => format!("{logical_s}/{rel}"),
             0 => rel.clone(),
             1 => format!("./{rel}"),
             2 => format!("{cwd_s}/{rel}"),
@@ -437,7 +454,7 @@ fn normalise_cases(sink: &mut Sink, rng: &mut Rng, n: usize, scratch: &str) {
             sink.skip();
         } else {
             let got = sloc_guard::commands::context::verif_canonical_target(Path::new(&spelled));
-            sink.push(Case { request: format!("target {} {}", enc(&cwd_s), enc(&spelled)), implementation: enc(&got.to_string_lossy()), pred: "ok".into(), tag: format!("target/style{style}") });
+            sink.push(Case { request: format!("target {} {} {}", enc(&cwd_s), enc(&logical_s), enc(&spelled)), implementation: enc(&got.to_string_lossy()), pred: "ok".into(), tag: format!("target/style{style}") });
         }
         // what a walk from that root yields, and the keys derived from it
         let entry = ["a.rs", "src/a.rs", "deep/x y/b.rs", ""][rng.below(4)];
@@ -466,6 +483,61 @@ fn normalise_cases(sink: &mut Sink, rng: &mut Rng, n: usize, scratch: &str) {
     }
 }
 
+/// Symbolic links in the spelling: a working directory reached through a link (the shell's
+/// `$PWD` is the logical path), and a target that is a link inside the project.  Every spelling
+/// of a target must give the statuses of the plain relative spelling.
+fn symlink_case(sink: &mut Sink, rng: &mut Rng, bin: &str, scratch: &str) {
+    let anchored = rng.chance(2, 3);
+    if !sink.want() {
+        sink.skip();
+        return;
+    }
+    let top = PathBuf::from(scratch).join(format!("l{}", sink.n));
+    let _ = std::fs::remove_dir_all(&top);
+    let real = top.join("real");
+    std::fs::create_dir_all(real.join("src")).unwrap();
+    std::fs::create_dir_all(real.join("v2")).unwrap();
+    std::fs::write(real.join("src/x.rs"), "fn a() {}\nfn b() {}\nfn c() {}\n").unwrap();
+    std::fs::write(real.join("v2/y.rs"), "fn a() {}\nfn b() {}\nfn c() {}\n").unwrap();
+    let _ = std::os::unix::fs::symlink("v2", real.join("current"));
+    let _ = std::os::unix::fs::symlink("real", top.join("link"));
+    let pat = |d: &str| if anchored { format!("{d}/**") } else { format!("**/{d}/**") };
+    std::fs::write(
+        real.join(".sloc-guard.toml"),
+        format!("version = \"2\"\n[content]\nmax_lines = 2\nextensions = [\"rs\"]\n[[content.rules]]\npattern = \"{}\"\nmax_lines = 10\n[[content.rules]]\npattern = \"{}\"\nmax_lines = 100\n", pat("src"), pat("current")),
+    )
+    .unwrap();
+    let real = real.canonicalize().unwrap();
+    let link = top.canonicalize().unwrap().join("link");
+    let (real_s, link_s) = (real.to_string_lossy().into_owned(), link.to_string_lossy().into_owned());
+    let mut problems: Vec<String> = vec![];
+    let mut compare = |what: &str, a: Result<(i32, Rows), String>, b: Result<(i32, Rows), String>| match (a, b) {
+        (Ok((rc0, r0)), Ok((rc, r))) => {
+            if let Some(d) = diff_rows(&r0, &r, None) {
+                problems.push(format!("{what}: {d}"));
+            } else if rc0 != rc {
+                problems.push(format!("{what}: exit {rc0} vs {rc}"));
+            }
+        }
+        (Err(e), _) | (_, Err(e)) => problems.push(format!("{what}: {e}")),
+    };
+    // working directory reached through `link`: no target, the logical absolute path, a sub-directory
+    compare("in a symlinked working directory, no target vs `$PWD`", run_check_in(bin, &real, &link, &[]), run_check_in(bin, &real, &link, &[link_s.clone()]));
+    compare("in a symlinked working directory, `src` vs `$PWD/src`", run_check_in(bin, &real, &link, &["src".into()]), run_check_in(bin, &real, &link, &[format!("{link_s}/src")]));
+    compare("in a symlinked working directory, no target vs the physical path", run_check_in(bin, &real, &link, &[]), run_check_in(bin, &real, &link, &[real_s.clone()]));
+    compare("in a symlinked working directory, `--files src/x.rs` vs `--files $PWD/src/x.rs`", run_check_in(bin, &real, &link, &["--files".into(), "src/x.rs".into()]), run_check_in(bin, &real, &link, &["--files".into(), format!("{link_s}/src/x.rs")]));
+    // a target that is itself a link inside the project
+    compare("target `current` (a link) vs its absolute spelling", run_check(bin, &real, &["current".into()]), run_check(bin, &real, &[format!("{real_s}/current")]));
+    compare("`--files current/y.rs` vs its absolute spelling", run_check(bin, &real, &["--files".into(), "current/y.rs".into()]), run_check(bin, &real, &["--files".into(), format!("{real_s}/current/y.rs")]));
+    let _ = std::fs::remove_dir_all(&top);
+    sink.push(Case {
+        request: "noop".into(),
+        implementation: "-".into(),
+        pred: if problems.is_empty() { "ok".into() } else { format!("FAIL {}", problems.join(" ;; ")) },
+        tag: format!("e2e/symlinks/{}", if anchored { "root-anchored" } else { "floating" }),
+    });
+}
+
 pub fn run(tier: Tier, seed: u64, out: &str) {
     let mut sink = Sink::create(out);
     let mut rng = Rng::new(seed ^ 0xC08);
@@ -475,6 +547,10 @@ pub fn run(tier: Tier, seed: u64, out: &str) {
         for _ in 0..tier.scale(120, 1500) {
             let mut r = rng.fork();
             spelling_case(&mut sink, &mut r, &bin, &scratch);
+        }
+        for _ in 0..tier.scale(4, 40) {
+            let mut r = rng.fork();
+            symlink_case(&mut sink, &mut r, &bin, &scratch);
         }
     }
     sink.extra.insert("trivial_tag_prefixes".into(), serde_json::json!([]));
